@@ -269,41 +269,7 @@ func runC02(c *Ctx) {
 	// "of the right validator set": block validation verifies the last commit against the previous set (imported)
 	validateBlockChecklist(c)
 
-	// ---- MakeCommit -------------------------------------------------------------------------------
-	if fn := c.Fn("types", "VoteSet", "MakeCommit"); fn != nil {
-		tPrecommit := c.P.Const("proto/kardiachain/types", "PrecommitType")
-		c.Guarded(fn, "NewCommit", CallTo(`^types\.NewCommit$`, ""),
-			G("voteSet.maj23 != nil", NotNil(`^voteSet\.maj23$`)),
-			G("type is Precommit", Cmp(`^voteSet\.signedMsgType$`, "==", `^const:`+tPrecommit+`$`)))
-		for _, in := range findInstrs(fn, CallTo(`^types\.NewCommit$`, "")) {
-			a := argPaths(callCommon(in))
-			ok := len(a) == 4 && a[0] == "call:(*types.VoteSet).GetHeight(voteSet)" && a[1] == "call:(*types.VoteSet).GetRound(voteSet)" && a[2] == "*voteSet.maj23"
-			c.Check("F", fnName(fn)+"/NewCommit(height, round, maj23, sigs)", ok, instrPos(in), 1, describeInstr(in))
-		}
-		// a signature for another block never reaches commitSigs[i] unreplaced
-		keep := G("", False(`^call:\(types\.CommitSig\)\.ForBlock\(`), True(`^call:\(\*types\.BlockID\)\.Equal\(&voteSet\.votes\[.*\]\.BlockID, \*voteSet\.maj23\)$`))
-		sites := c.P.guardEdges(fn, keep)
-		stores := findInstrs(fn, StoreTo(`^&make:\[\]types\.CommitSig`))
-		key := fnName(fn) + "/votes for other blocks are replaced by absent"
-		if len(sites) < 2 || len(stores) != 1 {
-			c.Bad("G", key, fn.Pos(), len(sites), fmt.Sprintf("expected the ForBlock()/BlockID.Equal(maj23) tests and one store into the signature slice; found %d tests, %d stores", len(sites), len(stores)))
-		} else {
-			rm := map[edge]bool{}
-			for _, s := range sites {
-				rm[s.Pass] = true
-			}
-			absent := CallTo(`^types\.NewCommitSigAbsent$`, "")
-			w := &Walker{P: c.P, Removed: rm, Stop: func(in ssa.Instruction) bool { return absent(in) }}
-			hit, found := w.Reach(fn, fn.Blocks[0], 0, func(in ssa.Instruction) bool { return in == stores[0] })
-			if found {
-				c.Bad("G", key, instrPos(hit.Instr), 3, "a commit signature for a block other than maj23 can be stored unreplaced; path "+c.P.pathStr(hit.Path))
-			} else {
-				st := stores[0].(*ssa.Store)
-				ok := strings.Contains(pathOf(st.Val), "call:types.NewCommitSigAbsent()") && strings.Contains(pathOf(st.Val), "call:(*types.Vote).CommitSig(voteSet.votes[")
-				c.Check("G", key, ok, instrPos(st), 3, "stored value: "+clip(pathOf(st.Val), 200))
-			}
-		}
-	}
+	makeCommitRules(c)
 
 	// ---- HeightVoteSet.AddVote -----------------------------------------------------------------------
 	if fn := c.Fn("consensus/types", "HeightVoteSet", "AddVote"); fn != nil {
@@ -524,6 +490,46 @@ func voteAdmissionRules(c *Ctx) {
 			a := argPaths(callCommon(in))
 			ok := len(a) == 4 && a[1] == "vote" && a[2] == "call:(*types.BlockID).Key(&vote.BlockID)" && re(`^`+val+`#1\.VotingPower$`).MatchString(a[3])
 			c.Check("F", fnName(fn)+"/addVerifiedVote(vote, vote.BlockID.Key(), val.VotingPower)", ok, instrPos(in), 1, describeInstr(in))
+		}
+	}
+}
+
+// makeCommitRules (shared by C02 and C04): the commit built from a +2/3 precommit set carries, for every validator, its
+// precommit for the decided block or an absent mark; it becomes the last commit of the next height's proposals.
+func makeCommitRules(c *Ctx) {
+	// ---- MakeCommit -------------------------------------------------------------------------------
+	if fn := c.Fn("types", "VoteSet", "MakeCommit"); fn != nil {
+		tPrecommit := c.P.Const("proto/kardiachain/types", "PrecommitType")
+		c.Guarded(fn, "NewCommit", CallTo(`^types\.NewCommit$`, ""),
+			G("voteSet.maj23 != nil", NotNil(`^voteSet\.maj23$`)),
+			G("type is Precommit", Cmp(`^voteSet\.signedMsgType$`, "==", `^const:`+tPrecommit+`$`)))
+		for _, in := range findInstrs(fn, CallTo(`^types\.NewCommit$`, "")) {
+			a := argPaths(callCommon(in))
+			ok := len(a) == 4 && a[0] == "call:(*types.VoteSet).GetHeight(voteSet)" && a[1] == "call:(*types.VoteSet).GetRound(voteSet)" && a[2] == "*voteSet.maj23"
+			c.Check("F", fnName(fn)+"/NewCommit(height, round, maj23, sigs)", ok, instrPos(in), 1, describeInstr(in))
+		}
+		// a signature for another block never reaches commitSigs[i] unreplaced
+		keep := G("", False(`^call:\(types\.CommitSig\)\.ForBlock\(`), True(`^call:\(\*types\.BlockID\)\.Equal\(&voteSet\.votes\[.*\]\.BlockID, \*voteSet\.maj23\)$`))
+		sites := c.P.guardEdges(fn, keep)
+		stores := findInstrs(fn, StoreTo(`^&make:\[\]types\.CommitSig`))
+		key := fnName(fn) + "/votes for other blocks are replaced by absent"
+		if len(sites) < 2 || len(stores) != 1 {
+			c.Bad("G", key, fn.Pos(), len(sites), fmt.Sprintf("expected the ForBlock()/BlockID.Equal(maj23) tests and one store into the signature slice; found %d tests, %d stores", len(sites), len(stores)))
+		} else {
+			rm := map[edge]bool{}
+			for _, s := range sites {
+				rm[s.Pass] = true
+			}
+			absent := CallTo(`^types\.NewCommitSigAbsent$`, "")
+			w := &Walker{P: c.P, Removed: rm, Stop: func(in ssa.Instruction) bool { return absent(in) }}
+			hit, found := w.Reach(fn, fn.Blocks[0], 0, func(in ssa.Instruction) bool { return in == stores[0] })
+			if found {
+				c.Bad("G", key, instrPos(hit.Instr), 3, "a commit signature for a block other than maj23 can be stored unreplaced; path "+c.P.pathStr(hit.Path))
+			} else {
+				st := stores[0].(*ssa.Store)
+				ok := strings.Contains(pathOf(st.Val), "call:types.NewCommitSigAbsent()") && strings.Contains(pathOf(st.Val), "call:(*types.Vote).CommitSig(voteSet.votes[")
+				c.Check("G", key, ok, instrPos(st), 3, "stored value: "+clip(pathOf(st.Val), 200))
+			}
 		}
 	}
 }
